@@ -21,7 +21,7 @@ VarLat(dim, L) == IF dim = 1 THEN {<<a>> : a \in L} ELSE IF dim = 2 THEN {<<a, b
 LatPoints(e) == LET sp == SpaceOf(e)  L == IF Len(sp) = 1 THEN Lat ELSE Lat2
                 IN {f \in [{sp[i][1] : i \in DOMAIN sp} -> UNION {VarLat(sp[i][2], L) : i \in DOMAIN sp}] : \A i \in DOMAIN sp : f[sp[i][1]] \in VarLat(sp[i][2], L)}
 EnvG(e, prm, f) == [val |-> [n \in FreeVars(e) \cup DOMAIN f |-> IF n \in DOMAIN f THEN f[n] ELSE IF n \in DOMAIN prm THEN <<prm[n]>> ELSE <<0>>], w |-> 1]
-MinInside(e) == LET sp == SpaceOf(e) IN IF Len(sp) = 1 /\ sp[1][2] = 1 THEN 2 ELSE IF Len(sp) = 1 /\ sp[1][2] = 3 THEN 8 ELSE 12
+MinInside(e) == LET sp == SpaceOf(e) IN IF Len(sp) = 1 /\ sp[1][2] = 1 THEN 2 ELSE IF Len(sp) = 1 /\ sp[1][2] = 3 THEN 8 ELSE 4
 \* enough of the set, and (flt = 1: the filter  first coordinate of the first variable >= 0) at least a tenth of it passes the filter
 Positive(e, prm, flt) ==
     IF SpaceOf(e) = <<<<"x", 2>>>> THEN Cardinality({p \in Lat \X Lat : (flt = 0 \/ p[1] >= 0) /\ In(e, EnvQ(e, prm, p[1], p[2]))}) >= 12
